@@ -377,9 +377,56 @@ func c03token(c *Ctx) {
 			return false, "the stored timestamp is not the caller's now (ARGV[3])"
 		}
 		for _, e := range se {
-			ttl := e.Args[1].Canon()
-			if ttl != "math.floor(((ARGV[2] / ARGV[1]) * 2))" && ttl != "math.floor((2 * (ARGV[2] / ARGV[1])))" {
-				return false, "TTL is not floor(2·capacity/rate): " + ttl
+			// the keys must outlive the time a drained bucket needs to refill (capacity/rate) — an expired key reads
+			// back as a full bucket — and the TTL must be a valid (positive) expiry for every positive rate and
+			// capacity. Accepted: ceil(k·capacity/rate) with k ≥ 1, or max(1, floor(k·capacity/rate)) with k ≥ 2.
+			scaled := func(v *luax.V) (float64, bool) { // v = (ARGV[2]/ARGV[1]) [* k]
+				v = v.Strip()
+				if v.Canon() == "(ARGV[2] / ARGV[1])" {
+					return 1, true
+				}
+				if v.Kind == "op" && v.S == "*" {
+					x, y := v.Args[0].Strip(), v.Args[1].Strip()
+					if x.Kind == "num" {
+						x, y = y, x
+					}
+					var k float64
+					if y.Kind == "num" && x.Canon() == "(ARGV[2] / ARGV[1])" {
+						fmt.Sscanf(y.S, "%g", &k)
+						return k, true
+					}
+				}
+				return 0, false
+			}
+			ttl := e.Args[1].Strip()
+			okTTL := false
+			why := ""
+			switch {
+			case ttl.Kind == "call" && ttl.S == "math.ceil" && len(ttl.Args) == 1:
+				if k, ok := scaled(ttl.Args[0]); ok && k >= 1 {
+					okTTL = true
+				}
+			case ttl.Kind == "call" && ttl.S == "math.max" && len(ttl.Args) == 2:
+				x, y := ttl.Args[0].Strip(), ttl.Args[1].Strip()
+				if x.Kind == "num" {
+					x, y = y, x
+				}
+				var lo float64
+				if y.Kind == "num" {
+					fmt.Sscanf(y.S, "%g", &lo)
+				}
+				if x.Kind == "call" && (x.S == "math.floor" || x.S == "math.ceil") && len(x.Args) == 1 && lo >= 1 {
+					if k, ok := scaled(x.Args[0]); ok && k >= 2 {
+						okTTL = true
+					}
+				}
+			case ttl.Kind == "call" && ttl.S == "math.floor" && len(ttl.Args) == 1:
+				if _, ok := scaled(ttl.Args[0]); ok {
+					why = " — floor(k·capacity/rate) is 0 whenever k·capacity < rate (e.g. rate 100, burst 10): SETEX then fails with 'invalid expire time', every request takes the outage path and each instance grants its own local burst although the store is reachable"
+				}
+			}
+			if !okTTL {
+				return false, "the keys' TTL is not a positive expiry that safely exceeds the refill time capacity/rate for every rate and capacity: " + e.Args[1].Canon() + why
 			}
 		}
 		delta := fmt.Sprintf("math.max(%s, %s)", "(ARGV[3] - "+lastTs+")", "0")
